@@ -170,9 +170,12 @@ def case_mat2(H, g, layout, check, via_from_matrix=False):
             H.reach('%s/path%d/reach' % (name, pn), hyp)
 
 
-def case_reject(H, kind):
-    """inputs that are not rotations beyond the tolerances must raise ValueError with check=True"""
-    name = 'C11/mat2SO3/rejects/%s' % kind
+def case_reject(H, kind, via=None):
+    """inputs that are not rotations beyond the tolerances must raise ValueError with check=True.
+    via='from_matrix': through pp.from_matrix with UNEQUAL tolerances (rtol = 1e-2, atol = 1e-6): the documented criterion
+    |R R^T - I| <= atol + rtol |I| then allows 1e-6 off the diagonal, so an off-diagonal defect above 2e-5 must still raise"""
+    name = 'C11/mat2SO3/rejects/%s%s' % (kind, '' if via is None else '/via-%s(rtol=1e-2,atol=1e-6)' % via)
+    call = (lambda M: pp.mat2SO3(M, check=True)) if via is None else (lambda M: pp.from_matrix(M, pp.SO3_type, check=True, rtol=1e-2, atol=1e-6))
 
     def prog(m):
         M = torch.eye(3, dtype=DT) + 0.01 * torch.randn(3, 3, dtype=DT)
@@ -188,13 +191,16 @@ def case_reject(H, kind):
             m.ctx.assume += [MMt[i][j] == (1 if i == j else 0) for i in range(3) for j in range(3)]
             m.ctx.det_assume = det_terms(ms, 3) == -1
             m.ctx.assume += [m.ctx.det_assume]
-        Y = pp.mat2SO3(M, check=True)
+        if via is not None:
+            # keep the diagonal of M M^T inside the (wide) relative budget so that only the off-diagonal defect decides
+            m.ctx.assume += [z3.And(MMt[i][i] - 1 < rat(1e-3), MMt[i][i] - 1 > -rat(1e-3)) for i in range(3)]
+        Y = call(M)
         return ms
 
     def replay(model):
         M = tensor_from_env(['m%d' % i for i in range(9)], model).view(3, 3)
         try:
-            pp.mat2SO3(M, check=True)
+            call(M)
         except ValueError:
             return False, 'raises as required'
         return True, 'accepted a matrix that is not a rotation: %s' % M.tolist()
@@ -251,22 +257,25 @@ def case_euler(H):
         H.certify(name + '/unit', T.dot(q, q), z3.RealVal(1), rels, hyps=H.hyps_of(ctx), replay=replay, key='C11/euler2SO3')
 
 
-def case_euler_roundtrip(H, g):
+def case_euler_roundtrip(H, g, f32=False):
     """Rz(yaw) Ry(pitch) Rx(roll) of the angles X.euler() returns is the rotation of X whenever |sin(pitch)| < 1 - eps, angles are in
     their principal ranges and finite.  Together with euler2SO3(e) == Rz Ry Rx for ALL e (case_euler) this is the round-trip clause."""
-    name = 'C11/%s/Rz.Ry.Rx(X.euler())==R(X)' % g
+    name = 'C11/%s/Rz.Ry.Rx(X.euler())==R(X)%s' % (g, '/float32' if f32 else '')
     EPS = z3.RealVal('2/10000')
+    dt = torch.float32 if f32 else DT
 
     def prog(m):
         m.ctx.split_where = True          # the gimbal-lock selection is a path split, not an If-term
-        X, xs = sym_group(m, g, 'x', 340)
+        X, xs = sym_group(m, g, 'x', 340, dtype=dt)
         e = X.euler()
         return m.full_terms(e), m.poisons(e), xs
 
     def replay(model):
-        xv = normalize_group(g, tensor_from_env(['x%d' % i for i in range(GDIM[g])], model))
+        xv = normalize_group(g, tensor_from_env(['x%d' % i for i in range(GDIM[g])], model)).to(dt)
         X = pp.LieTensor(xv, ltype=GTYPE[g])
-        e = X.euler()
+        e = X.euler().double()
+        X = pp.LieTensor(xv.double(), ltype=GTYPE[g])
+        tolr = 1e-9 if not f32 else 1e-4
         if not torch.isfinite(e).all():
             return True, 'euler() returned non-finite angles %s at X=%s' % (e.tolist(), xv.tolist())
         import math
@@ -280,10 +289,10 @@ def case_euler_roundtrip(H, g):
         err = (Rz @ Ry @ Rx - R).abs().max().item()
         rng = abs(r) > math.pi + 1e-12 or abs(y) > math.pi + 1e-12 or abs(p_) > math.pi / 2 + 1e-12
         err2 = (pp.euler2SO3(e).matrix() - R).abs().max().item()
-        return err > 1e-9 or err2 > 1e-9 or rng, ('Rz Ry Rx of X.euler()=%s differs from the rotation of X by %.3g (euler2SO3 round trip: %.3g)%s at X=%s'
+        return err > tolr or err2 > tolr or rng, ('Rz Ry Rx of X.euler()=%s differs from the rotation of X by %.3g (euler2SO3 round trip: %.3g)%s at X=%s'
                                                   % (e.tolist(), err, err2, ', angle outside its principal range' if rng else '', xv.tolist()))
 
-    for ctx, (e, pe, xs) in run_paths(H, name, prog, track_poison=True, max_paths=8):
+    for ctx, (e, pe, xs) in run_paths(H, name, prog, track_poison=True, max_paths=8, f32=f32):
         pn = H.paths
         t, q, s = parts(g, xs)
         x, y, z, w = q
@@ -297,6 +306,9 @@ def case_euler_roundtrip(H, g):
             ps = [p_ for p_ in pe if p_ is not None]
             H.prove('%s/path%d/gimbal-region/finite' % (name, pn), list(ctx.assume) + list(ctx.pc), z3.Not(z3.Or(ps)) if ps else z3.BoolVal(True),
                     replay=replay, key='C11/euler-roundtrip', timeout=20)
+            # the fallback may only be selected where the clause does not apply: |sin(pitch)| >= 1 - eps (documented default eps = 2e-4)
+            H.prove('%s/path%d/gimbal-fallback-only-inside-the-excluded-band' % (name, pn), list(ctx.assume) + list(ctx.pc),
+                    z3.Or(t2 >= 1 - EPS, t2 <= -(1 - EPS)), replay=replay, key='C11/euler-roundtrip', timeout=20)
             continue
         (sr, cr), (sp, cp), (sy, cy) = ang
         key = 'C11/euler-roundtrip'
@@ -354,9 +366,9 @@ def run(H):
         except Exception as e:
             import traceback; traceback.print_exc()
             H.engine_error('mat2%s' % g, e)
-    for kind in ('not-orthogonal', 'reflection'):
+    for kind, via in (('not-orthogonal', None), ('reflection', None), ('not-orthogonal', 'from_matrix')):
         try:
-            case_reject(H, kind)
+            case_reject(H, kind, via)
         except Exception as e:
             import traceback; traceback.print_exc()
             H.engine_error('reject', e)
@@ -364,6 +376,7 @@ def run(H):
         case_euler(H)
         for g in (['SO3'] if H.quick else GROUPS):
             case_euler_roundtrip(H, g)
+        case_euler_roundtrip(H, 'SO3', f32=True)
     except Exception as e:
         import traceback; traceback.print_exc()
         H.engine_error('euler', e)
